@@ -2,6 +2,8 @@ pub mod c01;
 pub mod c02;
 pub mod c03;
 pub mod c05;
+pub mod c06;
+pub mod c10;
 pub mod c11;
 pub mod c15;
 pub mod c16;
@@ -18,6 +20,8 @@ pub fn run_check(id: &str, tier: &str, seed: u64) -> Option<i32> {
         "C03" => c03::run_c03(tier, seed),
         "C04" => c03::run_c04(tier, seed),
         "C05" => c05::run(tier, seed),
+        "C06" => c06::run(tier, seed),
+        "C10" => c10::run(tier, seed),
         "C11" => c11::run(tier, seed),
         "C15" => c15::run(tier, seed),
         "C16" => c16::run(tier, seed),
@@ -37,6 +41,8 @@ pub fn replay(replay: &Value) -> Result<Vec<Violation>, String> {
         "C03" => c03::replay_c03(&case_of(replay)?),
         "C04" => c03::replay_c04(&case_of(replay)?),
         "C05" => c05::replay(replay)?,
+        "C06" => c06::replay(replay)?,
+        "C10" | "C10-free" => c10::replay(replay)?,
         "C11" | "C11-sim" => c11::replay(replay)?,
         "C16" => c16::replay(replay)?,
         "C15" => c15::replay(replay["input"].as_str().ok_or("input")?),
